@@ -74,7 +74,8 @@ MEASURED = {
 SAFETY = 10.0
 LNCDF_BOUND = 2e-3  # the property's allowance for log_normal_cdf, enters Bernoulli's expected_log_prob
 
-F32_CHUNK = 1 << 22
+F32_CHUNK = 1 << 22  # thorough: bit patterns per cell
+SUB = 1 << 18  # points per evaluation (temporaries stay small: 6x faster than 2^22-point evaluations)
 _DIAG = {}  # per-cell worst-case numbers (floats), returned as res["diag"] for debugging / calibration; not part of the verdict
 
 
@@ -144,7 +145,7 @@ def run_cell(cell, seed):
     for f in fails:
         k = (f["sub"], f["symptom"][:40])
         seen[k] = seen.get(k, 0) + 1
-        if seen[k] <= 2:
+        if seen[k] <= 1:
             kept.append(f)
     return {"fails": kept, "sig": what + ":" + ",".join(sorted({f["sub"] for f in kept})), "features": feats, "ops": int(ops or 1),
             "nontrivial": True, "notes": notes, "diag": dict(_DIAG)}
@@ -613,73 +614,73 @@ def lncdf_check(z, fails, notes, extra_feats=None):
         return 0
     dtype = z.dtype
     fi = torch.finfo(dtype)
+    dname = str(dtype).split(".")[-1]
+    ef = dict(extra_feats or {})
     try:
         with torch.enable_grad():
             zz = z.clone().requires_grad_(True)
             out = log_normal_cdf(zz)
             grad, = torch.autograd.grad(out, zz, torch.ones_like(out))
     except Exception as e:  # noqa: BLE001 -- an exception on finite input is a fail of the value sub-check, not of the harness
-        _add(fails, "lncdf-value", util.exc_str(e), f"{z.numel()} finite {dtype} inputs from {float(z.min())!r} to {float(z.max())!r}",
-             **dict(extra_feats or {}))
+        _add(fails, "lncdf-value", util.exc_str(e), f"{z.numel()} finite {dtype} inputs from {float(z.min())!r} to {float(z.max())!r}", **ef)
         return 1
     if out.shape != z.shape or grad.shape != z.shape or out.dtype != dtype:
-        _add(fails, "lncdf-value", f"result shape/dtype {tuple(out.shape)}/{out.dtype} for input {tuple(z.shape)}/{dtype}")
+        _add(fails, "lncdf-value", f"result shape/dtype {tuple(out.shape)}/{out.dtype} for input {tuple(z.shape)}/{dtype}", **ef)
         return 1
     o = out.detach().double().numpy()
     gr = grad.double().numpy()
     zd = z.double().numpy()
     ref = Q.log_phi(zd)
     gref = Q.dlog_phi(zd)
-    reg = _region(zd)
-    ef = dict(extra_feats or {})
     notes["lncdf_points"] = notes.get("lncdf_points", 0) + int(z.numel())
-    # ---- value
-    ref_rep = np.abs(ref) <= fi.max  # log Phi representable in the dtype
     with np.errstate(all="ignore"):
+        hi = zd >= -1.0
+        aref = np.abs(ref)
         err = np.abs(o - ref)
         if dtype == F64:
-            tol_hi = 1e-12 + 1e-10 * np.abs(ref)
+            tol = np.where(hi, 1e-12 + 1e-10 * aref, LNCDF_BOUND + 4 * fi.eps * aref)
         else:
-            tol_hi = 4 * fi.eps * (1.0 + np.abs(ref))
-        tol = np.where(zd >= -1.0, tol_hi, LNCDF_BOUND + 4 * fi.eps * np.abs(ref))
-        ovf_ok = ~ref_rep & ((o == -np.inf) | (o <= -fi.max * (1 - 4 * fi.eps)))  # log Phi below the dtype's range
-        nonfinite = ~np.isfinite(o) & ~ovf_ok
-        bad_val = ~nonfinite & ~ovf_ok & ~(err <= tol)
-        # ---- gradient
+            tol = np.where(hi, 4 * fi.eps * (1.0 + aref), LNCDF_BOUND + 4 * fi.eps * aref)
+        fin = np.isfinite(o)
+        below = aref > fi.max  # log Phi below the dtype's range: -inf (or the most negative float) is the rounded value
+        ovf_ok = below & ((o == -np.inf) | (o <= -fi.max * (1 - 4 * fi.eps)))
+        nonfinite = ~fin & ~ovf_ok
+        rv = err / tol
+        rv[~fin | ovf_ok] = 0.0
+        bad_val = rv > 1.0
         gtol = LNCDF_BOUND * np.abs(gref) + 4 * fi.tiny
-        g_rep = np.abs(gref) <= fi.max
         gerr = np.abs(gr - gref)
-        g_nonfinite = ~np.isfinite(gr) & g_rep
-        g_bad = ~g_nonfinite & g_rep & ~(gerr <= gtol)
-    notes["lncdf_err_above_1.9e-3"] = notes.get("lncdf_err_above_1.9e-3", 0) + int((np.isfinite(err) & (err > 1.9e-3) & (zd > -1e3)).sum())
+        g_nonfinite = ~np.isfinite(gr)
+        rg = gerr / gtol
+        rg[g_nonfinite] = 0.0
+        g_bad = rg > 1.0
+    notes["lncdf_err_above_1.9e-3"] = notes.get("lncdf_err_above_1.9e-3", 0) + int(np.count_nonzero((err > 1.9e-3) & fin & (zd > -1e3)))
+    for key, arr, msk in (("val_z>=-1", rv, hi), ("val_z<-1", rv, ~hi), ("grad_z>=-1", rg, hi), ("grad_z<-1", rg, ~hi)):
+        _DIAG[key + "_err_over_tol"] = max(_DIAG.get(key + "_err_over_tol", 0.0), float(np.max(arr, where=msk, initial=0.0)))
+    if not (nonfinite.any() or bad_val.any() or g_nonfinite.any() or g_bad.any()):
+        return 2
+    # ---- slow path: break the failures down by a-priori region
+    reg = _region(zd)
     for code, rname in enumerate(REGIONS):
         sel = reg == code
         if not sel.any():
             continue
-        with np.errstate(all="ignore"):
-            for lab, e_, t_, ok_ in (("val", err, tol, ~nonfinite & ~ovf_ok), ("grad", gerr, gtol, ~g_nonfinite & g_rep)):
-                m_ = sel & ok_ & np.isfinite(e_)
-                if m_.any():
-                    key = f"{lab}_{rname}_err_over_tol"
-                    _DIAG[key] = max(_DIAG.get(key, 0.0), float((e_[m_] / np.maximum(t_[m_], 1e-300)).max()))
-        for sub, nf, bad, e, t, r_ in (("lncdf-value", nonfinite, bad_val, err, tol, ref), ("lncdf-grad", g_nonfinite, g_bad, gerr, gtol, gref)):
+        for sub, nf, bad, e, t, r_, ratio in (("lncdf-value", nonfinite, bad_val, err, tol, ref, rv), ("lncdf-grad", g_nonfinite, g_bad, gerr, gtol, gref, rg)):
             got = o if sub == "lncdf-value" else gr
             what = "log Phi" if sub == "lncdf-value" else "phi/Phi"
             m = nf & sel
             if m.any():
                 zs = zd[m]
-                i = int(np.argmax(zs))  # closest to zero
-                j = np.flatnonzero(m)[i]
-                _add(fails, sub, f"non-finite result for finite z in {str(dtype).split('.')[-1]}: {got[j]} at z={zd[j]:.9g} ({what} = {r_[j]:.9g})",
-                     f"{int(m.sum())} of {int(sel.sum())} points of region '{rname}' in this cell, z from {zs.min():.9g} to {zs.max():.9g}",
+                j = np.flatnonzero(m)[int(np.argmax(zs))]  # closest to zero
+                _add(fails, sub, f"non-finite result for finite z in {dname}: {got[j]} at z={zd[j]:.9g} ({what} = {r_[j]:.9g})",
+                     f"{int(m.sum())} of {int(sel.sum())} points of region '{rname}' in this chunk, z from {zs.min():.9g} to {zs.max():.9g}",
                      region=rname, **ef)
             m = bad & sel
             if m.any():
-                ratio = np.where(m, e / np.maximum(t, 1e-300), -1)
-                j = int(np.argmax(ratio))
+                j = int(np.argmax(np.where(m, ratio, -1.0)))
                 kind = "abs" if sub == "lncdf-value" else "abs (tolerance 2e-3 relative)"
                 _add(fails, sub, f"{what} mismatch: {kind} err={e[j]:.3e} > {t[j]:.3e} at z={zd[j]:.17g}",
-                     f"got {got[j]!r} want {r_[j]!r}; {int(m.sum())} of {int(sel.sum())} points of region '{rname}' in this cell", region=rname, **ef)
+                     f"got {got[j]!r} want {r_[j]!r}; {int(m.sum())} of {int(sel.sum())} points of region '{rname}' in this chunk", region=rname, **ef)
     return 2
 
 
@@ -725,7 +726,7 @@ def run_lncdf_sweep(cell, g, fails, notes, feats):
     lo, hi, stride = cell["lo"], cell["hi"], cell["stride"]
     ev = getattr(torch, cell["eval"])
     ops = 0
-    step = F32_CHUNK * stride
+    step = SUB * stride
     for a in range(lo, hi, step):
         bits = np.arange(a, min(a + step, hi), stride, dtype=np.int64).astype(np.uint32)
         z = bits.view(np.float32)
